@@ -185,6 +185,9 @@ def check_after(ex, spec, st, before, refs, r, crashed, delete, dry_run, break_l
             missing = refs[b] - present
             if missing:
                 problems.append('band b%04d is still listed complete but its blocks %s were removed' % (b, sorted(missing)))
+        # a band that is still listed with its tail counts as a complete version: it must still be whole
+        if info and info['tail'] and (not info.get('head_present') or len(info['hunks']) != len(spec['bands'][b]['hunks'])):
+            problems.append('band b%04d is still listed complete (directory and tail present) but its head or index hunks are gone' % b)
     # (b) write-once / delete-only-what-was-asked monitor
     for p in before:
         if p not in st.nodes:
@@ -274,6 +277,8 @@ def cases(tier):
         if tier != 'quick' and len(bands) > 2:
             # also: everything but the newest, and the two oldest
             subsets += [bands[:-1], bands[:2]]
+        # the caller's list is in no particular order (the CLI passes the -b arguments as given)
+        subsets += [list(reversed(x)) for x in subsets if len(x) > 1]
         for delete in subsets:
             for dry in (False, True):
                 for brk in ((False, True) if spec['lock'] else (False,)):
